@@ -1,19 +1,23 @@
 #!/bin/bash
 # tools/run_mutant.sh <patch.diff> <property> [tier]
-# Applies a property-breaking patch to /repo, runs the check for <property> with
-# evidence and replays redirected to a scratch directory, restores /repo.
+# Applies a property-breaking patch to a scratch worktree of /repo (never to /repo
+# itself), runs the check for <property> against it (VERIF_REPO / VERIF_TARGET /
+# VERIF_OUT redirected), and restores the worktree.
 # Prints CAUGHT (check exited 1 with a VIOLATION line), MISSED (exit 0) or ERROR.
 set -u
 PATCH="$(readlink -f "$1")"; PROP="$2"; TIER="${3:-quick}"
-NAME="$(basename "$PATCH" .diff)"; [ "$NAME" = patch ] && NAME="$(basename "$(dirname "$PATCH")")"; OUT="${MUTANT_OUT:-/tmp/mutant-out}/$NAME-$PROP"
+NAME="$(basename "$PATCH" .diff)"; [ "$NAME" = patch ] && NAME="$(basename "$(dirname "$PATCH")")"
+OUT="${MUTANT_OUT:-/tmp/mutant-out}/$NAME-$PROP"
+MREPO="${MUTANT_REPO:-/tmp/mrepo}"; MTARGET="${MUTANT_TARGET:-/tmp/mtarget}"
 rm -rf "$OUT"; mkdir -p "$OUT"
 cp /verif/known_findings.json "$OUT/"
-if ! git -C /repo diff --quiet; then echo "ERROR /repo has uncommitted changes"; exit 3; fi
-git -C /repo apply "$PATCH" || { echo "ERROR patch does not apply"; exit 3; }
-VERIF_OUT="$OUT" /verif/check "$PROP" "$TIER" > "$OUT/log.txt" 2>&1
+HEAD=$(git -C /repo rev-parse HEAD)
+if [ ! -d "$MREPO" ]; then git -C /repo worktree add --detach "$MREPO" "$HEAD" -q || { echo "ERROR cannot create $MREPO"; exit 3; }; fi
+git -C "$MREPO" checkout -q -- . ; git -C "$MREPO" checkout -q --detach "$HEAD" || { echo "ERROR cannot move $MREPO to $HEAD"; exit 3; }
+git -C "$MREPO" apply "$PATCH" || { echo "ERROR patch does not apply"; exit 3; }
+VERIF_REPO="$MREPO" VERIF_TARGET="$MTARGET" VERIF_OUT="$OUT" /verif/check "$PROP" "$TIER" > "$OUT/log.txt" 2>&1
 RC=$?
-git -C /repo checkout -- . 
-git -C /repo clean -fdq crates 2>/dev/null
+git -C "$MREPO" checkout -q -- .
 if [ $RC -eq 1 ] && grep -q "^VIOLATION property=$PROP" "$OUT/log.txt"; then
   echo "CAUGHT $NAME $PROP: $(grep -A1 '^VIOLATION' "$OUT/log.txt" | grep class | head -3 | tr '\n' ' ')"
 elif [ $RC -eq 0 ]; then
